@@ -186,6 +186,7 @@ type MuskCase struct {
 	K, X, DT        float64
 	Inflow, Lateral []float64
 	Steady          bool // constant inflow+lateral with matching initial state
+	Runs            int  // the series is fed in this many consecutive Run calls (states carried)
 }
 
 func genMusk(t *rapid.T) MuskCase {
@@ -202,6 +203,7 @@ func genMusk(t *rapid.T) MuskCase {
 		c.K = rapid.SampledFrom([]float64{lo, hi}).Draw(t, "Kedge")
 	}
 	T := rapid.IntRange(1, 50).Draw(t, "T")
+	c.Runs = rapid.IntRange(1, 3).Draw(t, "runs")
 	c.Steady = rapid.IntRange(0, 3).Draw(t, "steady") == 0
 	if c.Steady {
 		i, l := rapid.Float64Range(0, 50).Draw(t, "I"), rapid.Float64Range(0, 10).Draw(t, "L")
@@ -222,8 +224,37 @@ func genMusk(t *rapid.T) MuskCase {
 	return c
 }
 
+// runWindows feeds the series to the model in `runs` consecutive calls, carrying the states.
+func runWindows(model string, cell simref.Cell, inputs [][]float64, st []float64, runs int) ([][]float64, []float64) {
+	T := len(inputs[0])
+	per := (T + runs - 1) / runs
+	var out [][]float64
+	for a := 0; a < T; a += per {
+		b := a + per
+		if b > T {
+			b = T
+		}
+		in := make([][]float64, len(inputs))
+		for i := range in {
+			in[i] = inputs[i][a:b]
+		}
+		o, f := simref.Run1(model, cell, in, st)
+		if out == nil {
+			out = make([][]float64, len(o))
+		}
+		for k := range o {
+			out[k] = append(out[k], o[k]...)
+		}
+		st = f
+	}
+	return out, st
+}
+
 func checkMusk(c MuskCase) (r pbt.Result) {
 	cell := simref.Cell{{c.K}, {c.X}, {c.DT}}
+	if c.Runs > 1 {
+		r.Label("muskingum-in-several-calls")
+	}
 	T := len(c.Inflow)
 	lat := simref.Sum(c.Lateral) > 0
 	if lat {
@@ -234,7 +265,7 @@ func checkMusk(c MuskCase) (r pbt.Result) {
 		r.Label("steady")
 		tot := c.Inflow[0] + c.Lateral[0]
 		// a reach in equilibrium: previous (total) inflow and previous outflow equal the steady flow
-		out, _ := simref.Run1("Muskingum", cell, [][]float64{c.Inflow, c.Lateral}, []float64{0, tot, tot})
+		out, _ := runWindows("Muskingum", cell, [][]float64{c.Inflow, c.Lateral}, []float64{0, tot, tot}, c.Runs)
 		for t, q := range out[0] {
 			if math.Abs(q-tot) > 1e-9*(1+tot) {
 				r.Failf("steady inflow %v + lateral %v: outflow[%d] = %v, a steady flow must pass unchanged (K=%g X=%g dt=%g)", c.Inflow[0], c.Lateral[0], t, q, c.K, c.X, c.DT)
@@ -248,7 +279,7 @@ func checkMusk(c MuskCase) (r pbt.Result) {
 	const tail = 60
 	in := append(append([]float64(nil), c.Inflow...), make([]float64, tail)...)
 	la := append(append([]float64(nil), c.Lateral...), make([]float64, tail)...)
-	out, fin := simref.Run1("Muskingum", cell, [][]float64{in, la}, []float64{0, 0, 0})
+	out, fin := runWindows("Muskingum", cell, [][]float64{in, la}, []float64{0, 0, 0}, c.Runs)
 	den := 2*c.K*(1-c.X) + c.DT
 	a2, a3 := (c.DT+2*c.K*c.X)/den, (2*c.K*(1-c.X)-c.DT)/den
 	sumQ := simref.Sum(out[0])
